@@ -7,10 +7,11 @@ import random
 import torch
 
 from .autojac_replay import PRESENTATIONS, present
+from .autojac_replay import fmap as _fm
 from .programs import Built
 
-GRAD_LEAVES = [1, 2, 3, 4, 5]
-LOSSES = [9, 11]
+GRAD_LEAVES = [1, 2, 3, 4, 5, 14, 15]
+LOSSES = [9, 11, 18]
 
 
 class Stepper:
@@ -24,7 +25,7 @@ class Stepper:
         self.keep: list = []                      # keeps every .grad tensor ever seen alive (no address reuse)
         self.aggf = aggregator_factory
         for l in pre:
-            self.B.set_grad(l, static["precontent"][l - 1])
+            self.B.set_grad(l, _fm(static["precontent"])[l])
         self._remember()
 
     def _remember(self):
